@@ -4,6 +4,8 @@ Each entry: (keyword in the commit subject, property, what failed before the fix
 import json, subprocess, os
 ROOT = os.path.dirname(os.path.dirname(os.path.abspath(__file__)))
 M = [
+ ('mangled variable names keep name and counter apart', 'C01', '`let x1 = 100;` followed by eleven `let x = ...;` in nested blocks: the first `x1` and the eleventh `x` were both mangled to `@main_x10` and shared a memory slot, `println(x1)` printed 10 (likewise the globals `b_x` of module `a` and `x` of module `a_b`)'),
+ ('mangled function names keep module and function apart', 'C15', 'modules `a` (with `pub fn b_f`) and `a_b` (with `pub fn f`), both imported by main: both functions were mangled to `@a_b_f`, one body replaced the other and `b_f()` ran the code of `a_b.f`'),
  ('refuses to cast a function value instead of panicking', 'C02', '`fn helper(x: int) -> int { x } fn main() { let o = new { ? }; o.set("f", helper); let v = o.get("f").unwrap() as int; }` on the interpreter: DeepCast panicked `Unreachable, the analyzer prevents this` for function, closure and builtin-function values (the VM answers with a cast error)'),
  ('interpreter for loop with an empty body never noticed', 'C10', '`fn main() { for i in 0..9000000000000000000 { } }` (the repository\'s examples/sig_term.hms) on the interpreter: no statement or expression is evaluated per iteration, the context was never polled and Run never returned after cancellation'),
  ('a range literal is constant only if both of its bounds are', 'C03', '`fn f() -> int { 3 } let r = 0..(f() as int);` was accepted: AnalyzedRangeLiteralExpression.Constant() answered true for every range, the global-initialiser rule never looked at the bounds'),
